@@ -2,6 +2,7 @@ package main
 
 import (
 	"context"
+	"errors"
 	"fmt"
 	"io"
 	"time"
@@ -15,7 +16,7 @@ type c10Case struct {
 	Client bool   `json:"client"`
 	Flate  bool   `json:"flate"`
 	Op     string `json:"op"`   // write | writer | read | read-fragmented | ping
-	When   string `json:"when"` // after-success | during-blocked | before
+	When   string `json:"when"` // after-success | during-blocked | before | before-rounds
 	Delay  int    `json:"delay_us"`
 	Size   int    `json:"size"`
 }
@@ -222,7 +223,13 @@ func runC10(ctx *runCtx) {
 	if ctx.replay != "" {
 		var cc c10Case
 		if err := loadReplay(ctx.replay, &cc); err == nil && cc.Op != "" {
-			if sh, w := runC10Case(cc); sh != "" {
+			var sh, w string
+			if cc.When == "before-rounds" {
+				sh, w = preCancelledRounds(cc, 10)
+			} else {
+				sh, w = runC10Case(cc)
+			}
+			if sh != "" {
 				rep.violate(Violation{Kind: "property", Shape: sh + ":" + cc.Op, What: w, Replay: cc})
 			}
 			rep.eval("replay")
@@ -247,6 +254,13 @@ func runC10(ctx *runCtx) {
 			}
 		}
 	}
+	for _, op := range []string{"write", "writer", "read", "ping"} {
+		for _, client := range []bool{true, false} {
+			for _, fl := range []bool{false, true} {
+				cases = append(cases, c10Case{Client: client, Flate: fl, Op: op, When: "before-rounds", Size: []int{1, 200, 5000}[rng.Intn(3)]})
+			}
+		}
+	}
 	type res struct {
 		i     int
 		sh, w string
@@ -257,15 +271,12 @@ func runC10(ctx *runCtx) {
 		sem <- struct{}{}
 		go func(i int) {
 			defer func() { <-sem }()
-			sh, w := "", ""
-			func() {
-				defer func() {
-					if r := recover(); r != nil {
-						sh, w = "panic", fmt.Sprint(r)
-					}
-				}()
-				sh, w = runC10Case(cases[i])
-			}()
+			sh, w := guarded(45*time.Second, func() (string, string) {
+				if cases[i].When == "before-rounds" {
+					return preCancelledRounds(cases[i], 10)
+				}
+				return runC10Case(cases[i])
+			})
 			out <- res{i, sh, w}
 		}(i)
 	}
@@ -281,4 +292,105 @@ func runC10(ctx *runCtx) {
 	}
 	rep.sample(cases[0])
 	rep.sample(cases[len(cases)-1])
+}
+
+// preCancelledRounds: "a context bounds only its own call", cancellation placed before the call. Up to
+// `rounds` times: one call whose context is already done (it must fail promptly), then the same kind
+// of call with a live context while the peer cooperates. The live call must succeed, or fail at once
+// because the connection was closed — it must never hang until its own deadline because an earlier
+// call's dead context left something behind (a lock, a registration).
+func preCancelledRounds(cc c10Case, rounds int) (string, string) {
+	a, b := newPipe()
+	c := websocket.VerifNewConn(a, cc.Client, websocket.VerifCopts{Enabled: cc.Flate}, 16)
+	c.SetReadLimit(-1)
+	peer := newRawPeer(b, !cc.Client)
+	defer b.Close()
+	defer c.CloseNow()
+	desc := fmt.Sprintf("%+v", cc)
+	payload := historyMsg(cc.Size, cc.Size)
+	// the peer consumes everything and answers pings
+	go func() {
+		for {
+			f, err := peer.readFrame(10 * time.Second)
+			if err != nil {
+				return
+			}
+			if f.Op == 9 {
+				peer.writeFrame(RawFrame{Fin: true, Op: 10, Payload: f.Payload})
+			}
+		}
+	}()
+	if cc.Op == "ping" {
+		go func() { // someone must read for Ping to see its pong
+			for {
+				if _, _, err := c.Read(context.Background()); err != nil {
+					return
+				}
+			}
+		}()
+	}
+	call := func(ctx context.Context) error {
+		switch cc.Op {
+		case "write":
+			return c.Write(ctx, websocket.MessageBinary, payload)
+		case "writer":
+			w, err := c.Writer(ctx, websocket.MessageBinary)
+			if err != nil {
+				return err
+			}
+			h := len(payload) / 2
+			_, err = w.Write(payload[:h])
+			if err == nil {
+				_, err = w.Write(payload[h:])
+			}
+			if cerr := w.Close(); err == nil {
+				err = cerr
+			}
+			return err
+		case "read":
+			_, _, err := c.Read(ctx)
+			return err
+		default:
+			return c.Ping(ctx)
+		}
+	}
+	for r := 0; r < rounds; r++ {
+		dead, cancel := context.WithCancel(context.Background())
+		cancel()
+		t0 := time.Now()
+		err := call(dead)
+		// (a call whose context is already done may still complete if it never has to wait: not demanded to fail)
+		_ = err
+		if d := time.Since(t0); d > 2*time.Second {
+			return "cancelled-call-slow", fmt.Sprintf("%s: round %d: returned after %v", desc, r, d)
+		}
+		if cc.Op == "read" {
+			peer.writeFrame(RawFrame{Fin: true, Op: 2, Payload: payload})
+		}
+		live, lc := context.WithTimeout(context.Background(), 1500*time.Millisecond)
+		t1 := time.Now()
+		lerr := call(live)
+		took := time.Since(t1)
+		lc()
+		if lerr == nil {
+			continue
+		}
+		// a failure is acceptable only if the connection has been closed (then every call fails at once)
+		if took >= 1400*time.Millisecond || errors.Is(lerr, context.DeadlineExceeded) {
+			mode := "plain"
+			if cc.Flate {
+				mode = "flate"
+			}
+			return "later-call-hangs-after-precancelled-call/" + mode, fmt.Sprintf("%s: round %d: after a %s whose context was already done, the next %s with a live 1.5 s context hung for %v and failed: %v", desc, r, cc.Op, cc.Op, took.Round(time.Millisecond), lerr)
+		}
+		wctx, wc := context.WithTimeout(context.Background(), time.Second)
+		t2 := time.Now()
+		werr := c.Write(wctx, websocket.MessageText, []byte("x"))
+		wc()
+		if werr == nil || time.Since(t2) > 500*time.Millisecond {
+			return "later-call-fails-on-open-connection", fmt.Sprintf("%s: round %d: the live %s failed (%v) although the connection is still open (a following write: %v)", desc, r, cc.Op, lerr, werr)
+		}
+		return "", "" // closed: fine
+	}
+	return "", ""
 }
